@@ -170,6 +170,27 @@ func dDefaultCases() []dDefaultCase {
 			}
 			return "", nil, nil
 		}},
+		{"Slice(Struct{custom map}).Default holding an empty, non-nil map", func() (any, func(), any) {
+			def := []dItem{{Meta: dMeta{}, Nums: []int{}, N: 1}}
+			s := z.Slice(itemSchema()).Default(def)
+			for _, mode := range []string{"Validate", "Parse"} {
+				var a []dItem
+				var is z.ZogIssueMap
+				if mode == "Validate" {
+					is = s.Validate(&a)
+				} else {
+					is = s.Parse(nil, &a)
+				}
+				if is != nil || len(a) != 1 || a[0].Meta == nil {
+					return fmt.Sprintf("%s: issues %v, value %+v", mode, z.Issues.SanitizeMap(is), a), nil, nil
+				}
+				a[0].Meta["seen"] = "yes"
+				if len(def[0].Meta) != 0 {
+					return fmt.Sprintf("%s: a key added to the (empty) map of the value the default was copied to appeared in the default itself: %v", mode, def[0].Meta), nil, nil
+				}
+			}
+			return "", nil, nil
+		}},
 		{"Slice(custom [2]*int).Default (Validate)", func() (any, func(), any) {
 			x, y := 1, 2
 			s := z.Slice(z.CustomFunc(func(p *[2]*int, c z.Ctx) bool { return true })).Default([][2]*int{{&x, &y}})
@@ -666,7 +687,159 @@ func dModesAgreeMore() string {
 	if msg(m1) != msg(m2) || sd != sv || len(m1) != 3 {
 		return fmt.Sprintf("fields tagged `zog:\"email \"` / `zog:\" name\"`: Validate reports [%s] and leaves %+v; Parse of the map keyed the same way reports [%s] and leaves %+v", msg(m1), sv, msg(m2), sd)
 	}
+	// a custom schema whose function normalises the value through its pointer before it judges it: the same value in both modes
+	norm := func() z.ZogSchema {
+		return z.CustomFunc(func(p *string, ctx z.Ctx) bool { *p = strings.ToUpper(*p); return len(*p) == 2 }, z.Message("not a country code"))
+	}
+	type addrT struct {
+		Country string
+		Codes   []string
+	}
+	cs := func() *z.StructSchema { return z.Struct(z.Schema{"country": norm(), "codes": z.Slice(norm())}) }
+	cv := addrT{Country: "es", Codes: []string{"fr", "deu"}}
+	mc1 := cs().Validate(&cv)
+	var cd addrT
+	mc2 := cs().Parse(map[string]any{"country": "es", "codes": []any{"fr", "deu"}}, &cd)
+	if msg(mc1) != msg(mc2) || fmt.Sprint(cv) != fmt.Sprint(cd) || cv.Country != "ES" {
+		return fmt.Sprintf("CustomFunc(upper-cases *p, then checks its length) on a field and on list items: Validate reports [%s] and leaves %+v; Parse reports [%s] and leaves %+v", msg(mc1), cv, msg(mc2), cd)
+	}
+	// an issue a custom schema builds itself for a type that prints through a pointer-receiver String(): the same text in both modes
+	conf.IssueFormatter = conf.NewDefaultFormatter(zconst.LangMap{"custom": {"insecure": "{{value}} must use https", zconst.IssueCodeFallback: "invalid"}, zconst.TypeStruct: {zconst.IssueCodeFallback: "invalid"}})
+	link := func() z.ZogSchema {
+		return z.CustomFunc(func(p *dLink, ctx z.Ctx) bool {
+			if p.Scheme != "https" {
+				ctx.AddIssue(ctx.Issue().SetCode("insecure"))
+			}
+			return true
+		})
+	}
+	type page struct{ Home dLink }
+	pgv := page{Home: dLink{Scheme: "http", Host: "example.com"}}
+	ml1 := z.Struct(z.Schema{"home": link()}).Validate(&pgv)
+	var ld page
+	ml2 := z.Struct(z.Schema{"home": link()}).Parse(map[string]any{"home": dLink{Scheme: "http", Host: "example.com"}}, &ld)
+	conf.IssueFormatter = saved
+	if msg(ml1) != msg(ml2) || len(ml1) != 2 {
+		return fmt.Sprintf("CustomFunc[Link] (Link has a pointer-receiver String()) filing ctx.Issue() under a template that uses {{value}}: Validate says [%s], Parse says [%s]", msg(ml1), msg(ml2))
+	}
 	return ""
+}
+
+type dLink struct{ Scheme, Host string }
+
+func (l *dLink) String() string { return l.Scheme + "://" + l.Host }
+
+// ---- schemas over named string / bool types (built like the repository's own custom-type tests: the zero schema plus a coercer)
+
+type dColor string
+
+func (c dColor) String() string { return "<" + strings.ToUpper(string(c)) + ">" }
+
+type dFlag bool
+
+func dColorSchema() *z.StringSchema[dColor] {
+	s := &z.StringSchema[dColor]{}
+	z.WithCoercer(func(x any) (any, error) {
+		if c, ok := x.(dColor); ok {
+			return c, nil
+		}
+		v, e := conf.DefaultCoercers.String(x)
+		if e != nil {
+			return nil, e
+		}
+		return dColor(v.(string)), nil
+	})(s)
+	return s
+}
+
+func dFlagSchema() *z.BoolSchema[dFlag] {
+	s := &z.BoolSchema[dFlag]{}
+	z.WithCoercer(func(x any) (any, error) {
+		v, e := conf.DefaultCoercers.Bool(x)
+		if e != nil {
+			return nil, e
+		}
+		return dFlag(v.(bool)), nil
+	})(s)
+	return s
+}
+
+// dNamedTypeTests: the built-in tests of schemas over named types decide the same predicates and carry the parameters they were built
+// with. Returns (problem for "which issues", problem for "what the issue carries").
+func dNamedTypeTests() (issuesProblem, describedProblem string) {
+	codes := func(l z.ZogIssueList) string {
+		var o []string
+		for _, e := range l {
+			o = append(o, e.Code)
+		}
+		sortStrings(o)
+		return strings.Join(o, ",")
+	}
+	type tc struct {
+		name string
+		mk   func() *z.StringSchema[dColor]
+		in   string
+		want string
+	}
+	for _, x := range []tc{
+		{"ContainsSpecial on Abc1!", func() *z.StringSchema[dColor] { return dColorSchema().ContainsSpecial() }, "Abc1!", ""},
+		{"ContainsSpecial on Abc1", func() *z.StringSchema[dColor] { return dColorSchema().ContainsSpecial() }, "Abc1", "contains_special"},
+		{"ContainsUpper.ContainsDigit on abc", func() *z.StringSchema[dColor] { return dColorSchema().ContainsUpper().ContainsDigit() }, "abc", "contains_digit,contains_upper"},
+		{"Not().ContainsSpecial on a!", func() *z.StringSchema[dColor] { return dColorSchema().Not().ContainsSpecial() }, "a!", "not_contains_special"},
+		{"HasSuffix(ed).Contains(gre) on blue", func() *z.StringSchema[dColor] { return dColorSchema().HasSuffix("ed").Contains("gre") }, "blue", "contained,suffix"},
+		{"Email.URL.UUID on x", func() *z.StringSchema[dColor] { return dColorSchema().Email().URL().UUID() }, "x", "email,url,uuid"},
+		{"OneOf(red, green) on blue", func() *z.StringSchema[dColor] { return dColorSchema().OneOf([]dColor{"red", "green"}) }, "blue", "one_of_options"},
+		{"OneOf(red, green) on red", func() *z.StringSchema[dColor] { return dColorSchema().OneOf([]dColor{"red", "green"}) }, "red", ""},
+	} {
+		var d dColor
+		gp := codes(x.mk().Parse(x.in, &d))
+		v := dColor(x.in)
+		gv := codes(x.mk().Validate(&v))
+		if gp != x.want || gv != x.want {
+			issuesProblem = fmt.Sprintf("StringSchema[Color] %s: Parse reports [%s], Validate reports [%s], want [%s]", x.name, gp, gv, x.want)
+		}
+	}
+	for _, val := range []bool{true, false} {
+		for _, which := range []string{"True", "False", "EQ(true)"} {
+			mk := func() *z.BoolSchema[dFlag] {
+				switch which {
+				case "True":
+					return dFlagSchema().True()
+				case "False":
+					return dFlagSchema().False()
+				}
+				return dFlagSchema().EQ(true)
+			}
+			holds := (which == "False") != val
+			var d dFlag
+			l := mk().Parse(val, &d)
+			if (len(l) == 0) != holds {
+				issuesProblem = fmt.Sprintf("BoolSchema[Flag].%s on %v: %d issue(s), predicate holds: %v", which, val, len(l), holds)
+			}
+			if val { // false is the zero value: absent in Validate
+				v := dFlag(val)
+				if l := mk().Validate(&v); (len(l) == 0) != holds {
+					issuesProblem = fmt.Sprintf("BoolSchema[Flag].%s validating %v: %d issue(s), predicate holds: %v", which, val, len(l), holds)
+				}
+			}
+		}
+	}
+	var d dColor
+	l := dColorSchema().HasSuffix("ed").Contains("gre").Not().HasPrefix("bl").Parse("blue", &d)
+	for _, e := range l {
+		for k, p := range e.Params {
+			if _, ok := p.(dColor); !ok {
+				describedProblem = fmt.Sprintf("StringSchema[Color]: the %s issue's parameter %q is a %T, the test was built with a Color", e.Code, k, p)
+			}
+		}
+		if e.Code == "suffix" && e.Message != "string must end with <ED>" {
+			describedProblem = fmt.Sprintf("StringSchema[Color].HasSuffix(ed): message %q, want the parameter as %%v prints it: string must end with <ED>", e.Message)
+		}
+	}
+	if len(l) != 3 {
+		issuesProblem = fmt.Sprintf("StringSchema[Color].HasSuffix(ed).Contains(gre).Not().HasPrefix(bl) on blue: %d issues, want 3", len(l))
+	}
+	return
 }
 
 func dKeys(m z.ZogIssueMap) string {
